@@ -14,7 +14,17 @@ func init() { register("C07", "model_checking", checkC07) }
 // graphProgram builds a program from a digraph: adj[i] lists the nodes node i depends on;
 // kinds[i] is a node source kind of graph.go (NFunc, NStruct, NField, NBound).
 func graphProgram(n int, adj [][]int, kinds []int, root int, inSet bool) *ir.Program {
-	g := &GraphSpec{N: n, Adj: adj, Nodes: make([]NodeSpec, n), Root: root, InSet: inSet}
+	place := 0
+	if inSet {
+		place = 1
+	}
+	return graphProgramP(n, adj, kinds, root, place)
+}
+
+// graphProgramP: place 0 direct Build arguments, 1 one named set, 2 one named set per node
+// (each set alone is acyclic; a cycle only exists in their union), 3 inline NewSet.
+func graphProgramP(n int, adj [][]int, kinds []int, root int, place int) *ir.Program {
+	g := &GraphSpec{N: n, Adj: adj, Nodes: make([]NodeSpec, n), Root: root, InSet: place == 1, PerNode: place == 2, Inline: place == 3}
 	for i, k := range kinds {
 		g.Nodes[i].Kind = k
 	}
@@ -58,7 +68,8 @@ func checkC07(c *h.Check) {
 	st := explore.Run(-1, func(x *explore.Ctx) {
 		n := 1 + x.Choose("n", maxN)
 		mask := uint64(x.Choose("edges", 1<<uint(n*n)))
-		direct := x.Bool("direct")
+		place := x.Choose("place", 4) // 0 named set, 1 direct, 2 one named set per node, 3 inline set
+		direct := place != 0
 		if thorough {
 			x.Choose("root", n)
 		}
@@ -85,7 +96,7 @@ func checkC07(c *h.Check) {
 		if d := ch["devnode"]; d > 0 {
 			kinds[d-1] = 1 + ch["devkind"]
 		}
-		prog := graphProgram(n, adjFromMask(n, mask), kinds, ch["root"], ch["direct"] == 0)
+		prog := graphProgramP(n, adjFromMask(n, mask), kinds, ch["root"], []int{1, 0, 2, 3}[ch["place"]])
 		addGraph("C07/digraph/"+x.ID(), prog)
 	})
 	c.Coverage["family_digraphs"] = map[string]interface{}{"executions": st.Executions, "skipped": st.Skipped, "max_nodes": maxN, "mode": "full product"}
@@ -109,6 +120,57 @@ func checkC07(c *h.Check) {
 			outcomes.inc("other")
 		}
 	}
+
+	// Family D: lassos with a fan: a chain of length L from the result leads to a provider with k
+	// arguments; the cycle passes through argument j (every position) and closes at the fan node,
+	// the chain start or the chain middle. Covers detectors whose trail/stack handling depends on
+	// path length and on sibling arguments.
+	var lasso []*h.Case
+	for L := 0; L <= 10; L++ {
+		for k := 2; k <= 3; k++ {
+			for j := 0; j < k; j++ {
+				for back := 0; back < 4; back++ {
+					for place := 0; place < 2; place++ {
+						// nodes: chain 0..L-1, fan node L, arguments L+1..L+k, tail L+k+1 behind argument j
+						n := L + k + 2
+						adj := make([][]int, n)
+						for i := 0; i < L; i++ {
+							adj[i] = []int{i + 1}
+						}
+						for a := 0; a < k; a++ {
+							adj[L] = append(adj[L], L+1+a)
+						}
+						tail := L + k + 1
+						adj[L+1+j] = []int{tail}
+						id := fmt.Sprintf("C07/fanlasso/L=%d/k=%d/j=%d/back=%d/place=%d", L, k, j, back, place)
+						switch back {
+						case 0: // acyclic
+						case 1:
+							adj[tail] = []int{L} // closes at the fan node
+						case 2:
+							adj[tail] = []int{0} // closes at the chain start (the result)
+						case 3:
+							adj[tail] = []int{L / 2} // closes in the middle of the chain
+						}
+						prog := graphProgramP(n, adj, make([]int, n), 0, place)
+						cs := caseFromProgram(id, prog, true, nil)
+						if c.NoteProgram(cs.Files) {
+							lasso = append(lasso, cs)
+						}
+					}
+				}
+			}
+		}
+	}
+	lres := c.JudgeAll(lasso)
+	for _, r := range lres {
+		if r != nil && r.Root().Failed {
+			outcomes.inc("fanlasso-rejected")
+		} else {
+			outcomes.inc("fanlasso-accepted")
+		}
+	}
+	cases = append(cases, lasso...)
 
 	// Family C: deterministic scaling families, each alone under a time cap.
 	scal := scalingCases(thorough)
@@ -139,7 +201,7 @@ func checkC07(c *h.Check) {
 	c.Coverage["traces_validated_against_impl"] = total
 	c.Coverage["evaluations"] = total
 	c.Coverage["distinct_nontrivial"] = c.DistinctPrograms()
-	c.Coverage["rule"] = "every labelled digraph (self-loops included) on <=3 nodes (thorough: 4) rendered as a Wire program; x placement (named set/direct) x one node re-typed as struct/field/binding edge; plus deterministic deep/wide scaling graphs. Distinct = distinct rendered source text. Non-trivial: all (each is a different graph)."
+	c.Coverage["rule"] = "every labelled digraph (self-loops included) on <=3 nodes (thorough: 4) rendered as a Wire program; x placement (one named set / direct / one named set per node, so that a cycle exists only in the union / inline set) x one node re-typed as struct/field/binding edge; plus fan-lassos (chain of length 0..10 to a provider with 2-3 arguments, cycle through each argument position, closing at the fan node / chain start / chain middle); plus deterministic deep/wide scaling graphs. Distinct = distinct rendered source text. Non-trivial: all (each is a different graph)."
 	c.Coverage["outcomes"] = outcomes.summary()
 	c.Coverage["scaling_cases"] = len(scal)
 	if len(cases) > 0 {
